@@ -78,6 +78,7 @@
 import JdProofs.DiffEmpty
 import JdProofs.DiffEmptySet
 import JdProofs.MergePrecision
+import JdProofs.CliExitCodes
 
 namespace Jd.Props.C05
 open Jd Jd.Spec
@@ -390,5 +391,75 @@ theorem diffM_nil_of_equals_nil_merge_precision (o : Opts) (ho : dispatchTag o =
     (hr : a.rawDoc = true) (hw : a.wf = true) (hl' : b.listDoc = true) (hw' : b.wf = true)
     (h : equals [] a b = true) : diffM o a b = [] :=
   Jd.MP.diffM_nil_of_equals_nil_merge_precision o ho hm M a b hr hw hl' hw' h
+
+/-! ## The CLI half: exit status 0 / 1 — proofs in JdProofs/CliExitCodes.lean (ns `Jd.CliExit`)
+   `DiffRun nc Y Ls b fl e a b'`: diff mode on the v2 library of the model, both inputs read and parse to `a`, `b'`,
+   writing `-o` succeeds. `hren` ("Render does not panic") is a hypothesis because the process model maps a render
+   panic to the empty text (`Witness.render_panic_artifact`: a totalisation artifact of the MODEL, not Go behaviour). -/
+
+section
+open Jd Jd.Cli Jd.CliRT Jd.CliExit
+
+/-- **C05, second sentence, on the process model** (`CliRT.proc` with the v2 library of the model; list reading, native format, no `-precision`): exit 0 iff the inputs are Equal, exit 1 iff they differ, never 2 -/
+theorem cli_exit_zero_iff_equal_list (F : FloatEq0) (R : DiffRun nc Y Ls b fl e a b')
+    (P : PlainFlags fl) (hfmt : formatOf fl.f = some .jd)
+    (hraw : a.rawDoc = true) (ha : Dom a) (hb : Dom b') (H : DE.HashOK [Opt.prec 0] a b')
+    (hren : (renderM nc (colorOpts fl) (diffM [Opt.prec 0] a b')).isSome = true) :
+    ((proc Ls b fl e).exit = 0 ↔ equals [Opt.prec 0] a b' = true) ∧
+    ((proc Ls b fl e).exit = 1 ↔ equals [Opt.prec 0] a b' = false) ∧
+    (proc Ls b fl e).exit ≠ 2 :=
+  Jd.CliExit.cli_exit_zero_iff_equal_list (F := F) (R := R) (P := P) (hfmt := hfmt) (hraw := hraw) (ha := ha) (hb := hb) (H := H) (hren := hren)
+
+/-- `-f merge` (exit status from the diff, fix D5d): exit 0 iff Equal; 1 iff different and RenderMerge succeeds; 2 iff different and RenderMerge fails -/
+theorem cli_exit_zero_iff_equal_list_merge (F : FloatEq0) (R : DiffRun nc Y Ls b fl e a b')
+    (P : PlainFlags fl) (hfmt : formatOf fl.f = some .merge)
+    (hraw : a.rawDoc = true) (ha : Dom a) (hb : Dom b') :
+    ((proc Ls b fl e).exit = 0 ↔ equals [Opt.merge, Opt.prec 0] a b' = true) ∧
+    ((proc Ls b fl e).exit = 1 ↔ equals [Opt.merge, Opt.prec 0] a b' = false ∧
+      ∃ T, (nativeLib nc Y).renderMerge (diffM [Opt.merge, Opt.prec 0] a b') = .ok T) ∧
+    ((proc Ls b fl e).exit = 2 ↔ equals [Opt.merge, Opt.prec 0] a b' = false ∧
+      ∃ m, (nativeLib nc Y).renderMerge (diffM [Opt.merge, Opt.prec 0] a b') = .error m) :=
+  Jd.CliExit.cli_exit_zero_iff_equal_list_merge (F := F) (R := R) (P := P) (hfmt := hfmt) (hraw := hraw) (ha := ha) (hb := hb)
+
+/-- `-f patch` (exit status from the text `[]`): for diffs produced by `Diff` the text is `[]` exactly when the diff is empty (`diffM_nil_of_no_ops`); exit 2 exactly when RenderPatch refuses (a changed location below a number-like or `-` key) -/
+theorem cli_exit_zero_iff_equal_list_patch (F : FloatEq0) (R : DiffRun nc Y Ls b fl e a b')
+    (P : PlainFlags fl) (hfmt : formatOf fl.f = some .patch)
+    (hraw : a.rawDoc = true) (ha : Dom a) (hb : Dom b') (H : DE.HashOK [Opt.prec 0] a b')
+    (hva : PRC.vfree a = true) (hvb : PRC.vfree b' = true) :
+    ((proc Ls b fl e).exit = 0 ↔ equals [Opt.prec 0] a b' = true) ∧
+    ((proc Ls b fl e).exit = 1 ↔ equals [Opt.prec 0] a b' = false ∧
+      ∃ T, (nativeLib nc Y).renderPatch (diffM [Opt.prec 0] a b') = .ok T) ∧
+    ((proc Ls b fl e).exit = 2 ↔ equals [Opt.prec 0] a b' = false ∧
+      ∃ m, (nativeLib nc Y).renderPatch (diffM [Opt.prec 0] a b') = .error m) :=
+  Jd.CliExit.cli_exit_zero_iff_equal_list_patch (F := F) (R := R) (P := P) (hfmt := hfmt) (hraw := hraw) (ha := ha) (hb := hb) (H := H) (hva := hva) (hvb := hvb)
+
+/-- `-set` / `-mset`: exit 0 ⇒ Equal, with NO hash and no float hypothesis -/
+theorem cli_exit_zero_implies_equal_set (R : DiffRun nc Y Ls b fl e a b') (S : SetFlags fl)
+    (hfmt : formatOf fl.f = some .merge ∨ (formatOf fl.f = some .jd ∧
+      (renderM nc (colorOpts fl) (diffM (setOpts fl) a b')).isSome = true))
+    (hraw : a.rawDoc = true) (haw : a.wf = true) (hbw : b'.wf = true)
+    (hx : (proc Ls b fl e).exit = 0) : equals (setOpts fl) a b' = true :=
+  Jd.CliExit.cli_exit_zero_implies_equal_set (R := R) (S := S) (hfmt := hfmt) (hraw := hraw) (haw := haw) (hbw := hbw) (hx := hx)
+
+/-- `-set` / `-mset`: Equal ⇒ exit 0 under `DES.DiffFaithful` (needed: `CliExit.Witness.set_collision_exit`, the FNV collision at the process level) -/
+theorem cli_equal_implies_exit_zero_set (R : DiffRun nc Y Ls b fl e a b') (S : SetFlags fl)
+    {fmt : Format} (hfmt : formatOf fl.f = some fmt)
+    (hraw : a.rawDoc = true) (haw : a.wf = true) (hbw : b'.wf = true)
+    (FH : DES.DiffFaithful (setOpts fl) (subterms a) (subterms b'))
+    (heq : equals (setOpts fl) a b' = true) : (proc Ls b fl e).exit = 0 :=
+  Jd.CliExit.cli_equal_implies_exit_zero_set (R := R) (S := S) (fmt := fmt) (hfmt := hfmt) (hraw := hraw) (haw := haw) (hbw := hbw) (FH := FH) (heq := heq)
+
+/-- with `-precision eps ≠ 0` the sentence is FALSE (KF-C05-precision at the process level): Equal under the precision, exit 1 — relative to the two IEEE facts about the numbers -/
+theorem precision_exit_one_though_equal {x y : UInt64}
+    (R : DiffRun nc Y Ls b fl e (.num x) (.num y))
+    (hset : fl.set = false) (hmset : fl.mset = false) (hkeys : fl.setkeys = "")
+    (hfmt : formatOf fl.f = some .jd)
+    (h1 : numWithin fl.precision x y = true) (h0 : numWithin 0 x y = false)
+    (hren : (renderM nc (colorOpts fl)
+      [{ path := [], remove := [.num x], add := [.num y] }]).isSome = true) :
+    equals [Opt.prec fl.precision] (.num x) (.num y) = true ∧ (proc Ls b fl e).exit = 1 :=
+  Jd.CliExit.precision_exit_one_though_equal (x := x) (y := y) (R := R) (hset := hset) (hmset := hmset) (hkeys := hkeys) (hfmt := hfmt) (h1 := h1) (h0 := h0) (hren := hren)
+
+end
 
 end Jd.Props.C05
